@@ -16,6 +16,7 @@ def run(ctx):
     ctx.run(L.flw22_busy_flag_released)
     ctx.run(O.ord17_loaded_mark_after_handles)
     ctx.run(O.pan6_cold_load_failures_are_values)
+    ctx.run(O.who6_column_handles_are_never_removed)
     return ctx.finish(
         'Static lock analysis over compiler MIR (guard birth/transfer/death, must-hold sets per '
         'program point): the snapshot reads buffer, frozen buffer and partition map under all '
